@@ -19,7 +19,31 @@ EXACT = ("Modelled, not verified: f64 rounding (the model computes over exact in
          "FixedBitSet's ordering (which of the two sides is stored cannot be observed once splits are compared as unordered pairs; the model fixes one), "
          "HashMap/HashSet iteration order (sorted away). ")
 
+ARQ = ("Modelled, not verified: f64 rounding (exact integer lengths, multiples of 2^-10, exact comparison); the model's recursion fuel (2*size+3) stands for Rust's "
+       "unbounded recursion, adequacy is a theorem under the arena invariant (depth < size by pigeonhole); stack depth on extremely deep trees. ")
+
 CLAIMS = {
+ "C09": dict(
+   text="Kernel-checked theorems on the arena model of get_path_from_root / get_common_ancestor / get_distance under the structural arena invariant, for arenas of "
+        "any size: the root path exists, is unique and is what the query returns (fuel adequacy by pigeonhole); for two distinct nodes of the same tree the reported "
+        "ancestor is an ancestor of both and every common ancestor is an ancestor of it (deepest), the edge count is the length of the two legs, the length is the sum "
+        "over both legs when all are present and absent otherwise; symmetric; zero for a node with itself; dead ids are errors. Tied to the crate on every ordered pair of "
+        "node ids (incl. removed and out-of-range) of every shape up to a node bound with three length masks and random larger trees in four arena layouts; brute-force ancestor oracle.",
+   note=NOTE + ARQ, technique="Lean 4 proof of the deepest-common-ancestor theorem on the arena model + all-pairs differential execution", ref="5 C09"),
+ "C10": dict(
+   text="Kernel-checked refinement theorems through a layout-independent abstraction (slot i represents rose tree t): pre-order = node then children's pre-orders in "
+        "child order, post-order = children's post-orders then node and a permutation of pre-order, the arena's level-order queue loop emits exactly the rose-level "
+        "queue loop's ids whose levels never decrease, listings are defined from the traversals, dead start nodes are errors, in-order refuses more than two children, "
+        "nothing outside the subtree is listed; the abstraction is total and unique under the invariant. Tied to the crate on every start node (incl. removed and "
+        "out-of-range ids) of every shape up to a node bound and random trees to 150 nodes in four layouts incl. removed slots; order-predicate oracles.",
+   note=NOTE + ARQ + "In-order's left/node/right order is decided by correspondence and oracle (the theorem covers refusal and dead starts).", technique="Lean 4 refinement proofs (arena traversal = rose traversal) + differential execution from every start node", ref="5 C10"),
+ "C12": dict(
+   text="Kernel-checked theorems: under the arena invariant the sum of CACHED tip depths (what sackin adds up) equals the textbook Sackin index (sum over internal nodes of "
+        "leaves below) of the represented tree; the two-branch root test of is_binary accepts exactly root arities up to three; height/diameter's fold is a maximum "
+        "attained by some leaf (pair); indices are refused on unrooted and on non-binary trees. All statistics of the model are tied to the crate on every shape up to a "
+        "node bound, every rooted binary shape up to a leaf bound, random and edited trees in four layouts, and re-derived from the topology by an independent oracle; "
+        "Yule/PDA normalisations are recomputed in f64 from the textbook closed forms.",
+   note=NOTE + ARQ + "Modelled, not verified: ln, powf and the harmonic sum in f64 (Yule/PDA normalisations; compared within 1e-12 relative).", technique="Lean 4 proofs (Sackin two definitions through the invariant, binarity test) + differential execution + independent recomputation", ref="5 C12"),
  "C05": dict(
    text="Kernel-checked theorems on the bitmask model of init_partitions for every tree: the reported set is exactly the set of canonical representatives of "
         "the splits induced by non-root internal branches with at least two leaves on each side (partitions_exact), without duplicates, a side and its "
